@@ -70,14 +70,15 @@ type restSpelling struct {
 }
 
 type restBehaviour struct {
-	ID        string                 `json:"id"`
-	Store     string                 `json:"store"`
-	Env       map[string]string      `json:"env"`
-	Base      string                 `json:"base"`
-	Cfg       map[string]interface{} `json:"cfg"`
-	Names     []string               `json:"names"`
-	Spellings []restSpelling         `json:"spellings"`
-	Steps     []restStep             `json:"steps"`
+	ID          string                 `json:"id"`
+	Store       string                 `json:"store"`
+	Env         map[string]string      `json:"env"`
+	Base        string                 `json:"base"`
+	ClientSlash bool                   `json:"client_slash"` // the bundled client is given the base URL with a trailing slash
+	Cfg         map[string]interface{} `json:"cfg"`
+	Names       []string               `json:"names"`
+	Spellings   []restSpelling         `json:"spellings"`
+	Steps       []restStep             `json:"steps"`
 }
 
 type restInput struct {
@@ -389,7 +390,12 @@ func runRestBehaviour(w *tr.Writer, b restBehaviour, scratch string, rs *restSer
 		Timeout:       20 * time.Second,
 	}
 	rec := &restRecTransport{next: &http.Transport{DisableKeepAlives: true}}
-	cl, err := client.New(rs.srv.URL+b.Base, client.WithTransport(rec))
+	// users configure the client's base URL with or without a trailing slash: both spellings occur
+	clientBase := rs.srv.URL + b.Base
+	if b.ClientSlash {
+		clientBase += "/"
+	}
+	cl, err := client.New(clientBase, client.WithTransport(rec))
 	if err != nil {
 		w.Emit(tr.Ev{"a": "harness-error", "t": b.ID, "err": "client.New: " + err.Error()})
 		return
